@@ -52,8 +52,8 @@ type input struct {
 	p2p   bool
 	sec   int64
 	nsec  int64
-	topic string              // p2p only
-	data  []byte              // p2p only: pMsg.Data
+	topic string                // p2p only
+	data  []byte                // p2p only: pMsg.Data
 	msg   *spectypes.SSVMessage // direct only
 }
 
